@@ -189,8 +189,11 @@ func (c *Clock) FireNext(limit time.Duration) bool {
 		c.now = t.at
 	}
 	if t.period > 0 {
+		// like Go's runtime timers: a periodic timer that fires late (clock jump, stalled process) keeps its phase;
+		// the ticks in between are dropped, the next one is the first multiple of the period after now
+		late := c.now - t.at
 		c.seq++
-		t.at = c.now + t.period
+		t.at += t.period * (1 + late/t.period)
 		t.seq = c.seq
 		heap.Push(&c.timers, t)
 	}
